@@ -90,7 +90,7 @@ func init() {
 		"DESIGN.md §5 C08, §4.2, §4.6, §4.8",
 		[]string{"memory exhaustion by breadth of reference expansion (the guard bounds depth only)", "termination and crash freedom of encoding/json, yaml.v3, go-toml on arbitrary bytes", "nil-pointer dereferences other than those excluded by the error-check discipline"},
 		[]string{"Trees handed to the structural recursions are acyclic: decoders build trees and merge sources are private copies (C08.acyclic).", "Document.Parents is acyclic unless the API is misused by merging a *Document into itself."},
-		rulePanic, ruleRecursion, ruleLoops, ruleNilMap, ruleMergeSourcesPrivate("C08.acyclic"), ruleCLIExit, ruleDroppedErrors)
+		rulePanic, ruleRecursion, ruleLoops, ruleNilMap, ruleMergeSourcesPrivate("C08.acyclic"), ruleCLIExit, ruleDroppedErrors, ruleC13)
 
 	mk("C09", "Evaluation is deterministic",
 		"order-sensitivity audit of every native map range (commutative writes / boolean fold / first-error shapes), contract of the sortedMap iterator, census of package-level state written outside init, census of nondeterminism sources reachable from evaluation, ownership rule against merging aliased trees",
@@ -98,7 +98,7 @@ func init() {
 		"DESIGN.md §5 C09, §4.5, §4.7",
 		[]string{"determinism of the codecs, the Go runtime and the OS", "which of several errors is reported first (only success/failure is covered)"},
 		[]string{"One file per layer name (the property's own precondition) for findFile's map range."},
-		ruleMapRanges, ruleSortedMap, ruleGlobals, rulePools, ruleNondetSources, ruleMergeSourcesPrivate("C09.alias"), ruleQueryMethods("C09.query"), ruleMemoised("C09.memo"))
+		ruleMapRanges, ruleSortedMap, ruleGlobals, rulePools, ruleNondetSources, ruleMergeSourcesPrivate("C09.alias"), ruleQueryMethods("C09.query"), ruleMemoised("C09.memo"), ruleC07Encode("C09.encode"))
 
 	mk("C10", "$merge and $replace behave as if the referenced subtree were written inline",
 		"path-effect summaries of Document.Process (phase order), the process1 family (dispatch), get/getPath/getCross/getCrossDoc (lookup tables), matchMap (placeholder rule); ownership analysis: results of get never reach a mutating position; the evaluated document is an element of the list its references are resolved against; mutation summaries of the pop/has/get helpers; dropped-error audit",
@@ -138,7 +138,7 @@ func init() {
 		"DESIGN.md §5 C14",
 		[]string{"exact bytes produced by the format encoders", "tolist value formatting (%v)"},
 		nil,
-		ruleC14, ruleC14Decode, ruleC07Encode("C14.validate"), ruleC04Normalised("C14.inverse"), ruleC04Float, ruleYamlScalars("C14.scalars"), ruleDroppedErrors, ruleSmallContracts("C14.helper", "pophelpers"))
+		ruleC14, ruleC14Decode, ruleC07Encode("C14.validate"), ruleC04Normalised("C14.inverse"), ruleC04Float, ruleYamlScalars("C14.scalars"), ruleDroppedErrors, ruleSmallContracts("C14.helper", "pophelpers"), ruleTypedNil("C14.typednil"))
 
 	mk("C15", "bkld round trip: base + bkld(base, target) evaluates to target",
 		"path-effect summaries of diff/diffDoc against the diff table; contract of a hand-written entry comparison (equal sizes); composition check diff-emits-wholesale x merge-accepts over kind pairs; nil-diff-implies-equal-sequence check; vocabulary agreement of emitted directives with the evaluator",
